@@ -310,6 +310,20 @@ func famAtomic(t *testing.T) {
 					"stmts": stmtSummary(flog), "hit": len(flog) >= k})
 			}
 			res["faults"] = faults
+			// every statement position meets a lock conflict once ("database is locked"): the transaction layer may run the
+			// request's transaction again; whatever it does, the request is applied completely or not at all, as it reports
+			var busy []map[string]any
+			for k := 1; k <= maxK; k++ {
+				e.setInitial(initial)
+				e.preIns, e.preDel = e.internal(req.ins), e.internal(req.del)
+				_, bh := e.logicalDump()
+				sqlCtl.beginBusy(k)
+				fok, fst := e.execAtomic(c, req)
+				flog := sqlCtl.end()
+				_, fh := e.logicalDump()
+				busy = append(busy, map[string]any{"k": k, "ok": fok, "status": fst, "before": bh, "after": fh, "hit": len(flog) >= k, "nstmts": len(flog)})
+			}
+			res["busy"] = busy
 			out.write(res)
 		})
 	}
